@@ -14,7 +14,7 @@
 import Nq.Lemmas.DaemonMain
 
 namespace Nq.Props.C03
-open Nq Nq.Daemon Nq.Lemmas.DI
+open Nq Nq.Daemon Nq.Lemmas.DI Nq.Lemmas.DS
 
 /-- reachable from the empty queue -/
 def Reach (cfg : Cfg) (s : St) : Prop := ∃ evs, acceptAll cfg {} evs = some s
@@ -140,6 +140,49 @@ theorem C03_finished (cfg : Cfg) (s : St) (hr : Reach cfg s) (m : Nat) (sender :
     · exact Or.inr ⟨hn, Or.inr (Or.inl ⟨h1, C03_dropped_only_doublebounce cfg s hr m sender rcpts ha _ h1⟩)⟩
     · exact Or.inr ⟨hn, Or.inr (Or.inr h1)⟩
 
+/-! ### The crash exemption needs a crash
+
+`lostRecs` (the last disjunct of `Fate`, the last alternative of `C03_finished` / `C03_info_last`) is fed by one event only,
+`crashBounce`, and the monitor accepts the crash-damage events (`crashMarks`, `crashBounce`, `crashTodoFiles`) only in the
+crash window: after a crash (`.restart`) and before anything else happens but further damage reports and arrivals of messages
+(`St.crashed`, set by `.restart`, cleared — together with `cut` — by every other event). -/
+
+/-- **Crash damage is reported only right after a crash**: in every accepted history a crash-damage event is preceded by a
+crash (`.restart`), with nothing in between but other crash-damage events, further crashes and arrivals of messages. -/
+theorem C03_crash_window (cfg : Cfg) (evs : List Ev) (e : Ev) (s : St) (h : acceptAll cfg {} (evs ++ [e]) = some s)
+    (hd : e.isDamage = true) :
+    ∃ pre post, evs = pre ++ Ev.restart :: post ∧ post.all Ev.inCrashWindow = true := by
+  obtain ⟨s1, h1, h2⟩ := acceptAll_snoc cfg evs {} s e h
+  have hc := damage_needs_crashed cfg s1 s e h2 hd
+  rcases window_trace cfg evs {} s1 h1 hc with ⟨h0, _⟩ | h3
+  · cases h0
+  · exact h3
+
+/-- **A record becomes crash-exempt only by a crash-damage event** (one step): `x` enters `lostRecs` of message `m` only by a
+`crashBounce m content` accepted in the crash window, while its paragraph was in `bounce/<m>`, with a new content that does not
+start with the old one.  (Frame lemma over all event kinds.) -/
+theorem C03_lost_step (cfg : Cfg) (s s' : St) (e : Ev) (h : accept cfg s e = some s') (m : Nat) (x : Ch × Nat)
+    (hx : x ∈ (s'.msg m).lostRecs) :
+    x ∈ (s.msg m).lostRecs ∨
+    ∃ content, e = .crashBounce m content ∧ s.crashed = true ∧ x ∈ (s.msg m).inFile ∧
+      ((s.msg m).bounce.getD []).isPrefixOf content = false :=
+  lost_frame cfg s s' e h m x hx
+
+/-- **The crash exemption needs a crash** (whole histories): if a record is crash-exempt (`lostRecs`) in a reachable state, the
+history contains a crash (`.restart`), then only window events (damage reports, further crashes, arrivals), then the
+`crashBounce` of its message.  So the last alternative of `Fate` / `C03_finished` / `C03_info_last` reads: "… and a crash
+happened, and the damage to `bounce/<m>` was found in the queue as that crash left it". -/
+theorem C03_lost_after_crash (cfg : Cfg) (evs : List Ev) (s : St) (h : acceptAll cfg {} evs = some s) (m : Nat) (x : Ch × Nat)
+    (hx : x ∈ (s.msg m).lostRecs) :
+    ∃ pre win content post, evs = pre ++ Ev.restart :: win ++ Ev.crashBounce m content :: post ∧
+      win.all Ev.inCrashWindow = true := by
+  rcases lost_trace cfg m x evs {} s h hx with h0 | ⟨pre, content, post, s1, he, hp, hc⟩
+  · have : (({} : St).msg m) = {} := by simp [St.msg, tabGet]
+    rw [this] at h0; simp at h0
+  · rcases window_trace cfg pre {} s1 hp hc with ⟨h0, _⟩ | ⟨pre', win, hpre, hw⟩
+    · cases h0
+    · exact ⟨pre', win, content, post, by rw [he, hpre], hw⟩
+
 /-- **A completion mark is written only for a finished recipient**: whenever qmail-send writes the
 `D` byte of a record, that delivery was reported `K`, or reported `D` (or `Z` past the queue lifetime)
 *and its bounce paragraph has been appended*. -/
@@ -147,8 +190,12 @@ theorem C03_flip (cfg : Cfg) (s s' : St) (hr : Reach cfg s) (m : Nat) (c : Ch) (
     (h : accept cfg s (.markD m c pos) = some s') :
     ∃ rs idx, (s.msg m).chan c = some rs ∧ recIndex rs pos = some idx ∧
       ((c, idx) ∈ (s.msg m).delivered ∨ (c, idx) ∈ (s.msg m).noted) := by
-  have hinv := inv_calm cfg s (reach_inv cfg s hr)
-  change acceptCore cfg s.calm _ = _ at h     -- `markD` is judged outside the crash window
+  -- `markD` is judged outside the crash window: in `s.calm`, which differs from `s` in the mode flag and `cut` only
+  refine (?_ : ∀ t : St, Inv cfg t → acceptCore cfg t (.markD m c pos) = some s' → ∃ rs idx, (t.msg m).chan c = some rs ∧
+      recIndex rs pos = some idx ∧ ((c, idx) ∈ (t.msg m).delivered ∨ (c, idx) ∈ (t.msg m).noted))
+    s.calm (inv_calm cfg s (reach_inv cfg s hr)) h
+  clear h hr s
+  intro s hinv h
   simp only [acceptCore] at h
   split at h
   · cases h
@@ -226,7 +273,11 @@ tied to the code by trace replay.) -/
 theorem C03_paragraph_needs_report (cfg : Cfg) (s s' : St) (m : Nat) (bs : Bytes) (h : accept cfg s (.appendBounce m bs) = some s') :
     ∃ n ∈ s.notes, n.m = m ∧ (s'.msg m).noted = (n.c, n.idx) :: (s.msg m).noted ∧ s'.notes = s.notes.erase n ∧
       bs.take ([60] ++ sanitizeLF n.recip ++ [62, 58, 10]).length = [60] ++ sanitizeLF n.recip ++ [62, 58, 10] := by
-  change acceptCore cfg s.calm _ = _ at h
+  refine (?_ : ∀ t : St, acceptCore cfg t (.appendBounce m bs) = some s' →
+      ∃ n ∈ t.notes, n.m = m ∧ (s'.msg m).noted = (n.c, n.idx) :: (t.msg m).noted ∧ s'.notes = t.notes.erase n ∧
+        bs.take ([60] ++ sanitizeLF n.recip ++ [62, 58, 10]).length = [60] ++ sanitizeLF n.recip ++ [62, 58, 10]) s.calm h
+  clear h s
+  intro s h
   simp only [acceptCore] at h
   split at h
   · cases h
@@ -238,7 +289,7 @@ theorem C03_paragraph_needs_report (cfg : Cfg) (s s' : St) (m : Nat) (bs : Bytes
         cases h
         refine ⟨n, List.mem_of_find?_eq_some hn, ?_, ?_, rfl, by simpa using hg.2.2.1⟩
         · have := List.find?_some hn; simpa using this
-        · simp only [St.msg, St.upd, tabGet_set, St.calm_tab]; simp
+        · simp only [St.msg, St.upd, tabGet_set]; simp
       · cases h
 
 /-- **A channel file is unlinked only when everything in it is finished** (outside preprocessing):
@@ -247,9 +298,12 @@ theorem C03_unlink (cfg : Cfg) (s s' : St) (hr : Reach cfg s) (m : Nat) (c : Ch)
     (h : accept cfg s (.unlinkChan m c) = some s') (ht : (s.msg m).todo = none) :
     ∃ rs, (s.msg m).chan c = some rs ∧ ∀ i, i < rs.length →
       ((c, i) ∈ (s.msg m).delivered ∨ (c, i) ∈ (s.msg m).noted) := by
-  have hinv := reach_inv cfg s hr
-  change acceptCore cfg s.calm _ = _ at h
-  simp only [acceptCore, St.calm_msg] at h
+  refine (?_ : ∀ t : St, Inv cfg t → acceptCore cfg t (.unlinkChan m c) = some s' → (t.msg m).todo = none →
+      ∃ rs, (t.msg m).chan c = some rs ∧ ∀ i, i < rs.length → ((c, i) ∈ (t.msg m).delivered ∨ (c, i) ∈ (t.msg m).noted))
+    s.calm (inv_calm cfg s (reach_inv cfg s hr)) h ht
+  clear h hr ht s
+  intro s hinv h ht
+  simp only [acceptCore] at h
   split at h
   · cases h
   · split at h
@@ -278,33 +332,35 @@ theorem C03_info_last (cfg : Cfg) (s s' : St) (hr : Reach cfg s) (m : Nat) (send
       (c, i) ∈ (s.msg m).delivered ∨
       ((c, i) ∈ (s.msg m).noted ∧
         (((c, i) ∈ (s.msg m).bounced ∧ (c, i) ∉ (s.msg m).lostRecs) ∨ (c, i) ∈ (s.msg m).droppedRecs ∨ (c, i) ∈ (s.msg m).lostRecs)) := by
-  change acceptCore cfg s.calm _ = _ at h
-  simp only [acceptCore, St.calm_msg] at h
-  split at h
-  · cases h
-  · split at h
-    · rename_i hts; rw [ht] at hts; simp at hts
+  -- the guard, read in the state the event is judged in (`s.calm`: the same files)
+  have hguard : ∀ t : St, acceptCore cfg t (.unlinkInfo m) = some s' → (t.msg m).todo = none →
+      (t.msg m).loc = none ∧ (t.msg m).rem = none ∧ (t.msg m).bounce = none := by
+    intro t h ht
+    simp only [acceptCore] at h
+    split at h
+    · cases h
     · split at h
-      · rename_i hg
-        have hl : (s.msg m).loc = none := by simpa using hg.1
-        have hrm : (s.msg m).rem = none := by simpa using hg.2.1
-        have hb : (s.msg m).bounce = none := by simpa using hg.2.2
-        refine ⟨hl, hrm, hb, ?_⟩
-        intro c i hlt
-        rcases C03_accounted cfg s hr m sender rcpts ha with h0 | ⟨_, _, h0⟩
-        · rw [ht] at h0; cases h0.1
-        · rcases h0 c i hlt with ⟨rs, hc, _⟩ | h1 | ⟨_, _, _, h1, _⟩ | ⟨hn, h1, h2⟩ | ⟨hn, h1⟩ | ⟨hn, h1⟩
-          · cases c
-            · have : (s.msg m).loc = some rs := hc
-              rw [hl] at this; cases this
-            · have : (s.msg m).rem = some rs := hc
-              rw [hrm] at this; cases this
-          · exact Or.inl h1
-          · rw [hb] at h1; simp at h1
-          · exact Or.inr ⟨hn, Or.inl ⟨h1, h2⟩⟩
-          · exact Or.inr ⟨hn, Or.inr (Or.inl h1)⟩
-          · exact Or.inr ⟨hn, Or.inr (Or.inr h1)⟩
-      · cases h
+      · rename_i hts; rw [ht] at hts; simp at hts
+      · split at h
+        · rename_i hg
+          exact ⟨by simpa using hg.1, by simpa using hg.2.1, by simpa using hg.2.2⟩
+        · cases h
+  obtain ⟨hl, hrm, hb⟩ : (s.msg m).loc = none ∧ (s.msg m).rem = none ∧ (s.msg m).bounce = none := hguard s.calm h ht
+  refine ⟨hl, hrm, hb, ?_⟩
+  intro c i hlt
+  rcases C03_accounted cfg s hr m sender rcpts ha with h0 | ⟨_, _, h0⟩
+  · rw [ht] at h0; cases h0.1
+  · rcases h0 c i hlt with ⟨rs, hc, _⟩ | h1 | ⟨_, _, _, h1, _⟩ | ⟨hn, h1, h2⟩ | ⟨hn, h1⟩ | ⟨hn, h1⟩
+    · cases c
+      · have : (s.msg m).loc = some rs := hc
+        rw [hl] at this; cases this
+      · have : (s.msg m).rem = some rs := hc
+        rw [hrm] at this; cases this
+    · exact Or.inl h1
+    · rw [hb] at h1; simp at h1
+    · exact Or.inr ⟨hn, Or.inl ⟨h1, h2⟩⟩
+    · exact Or.inr ⟨hn, Or.inr (Or.inl h1)⟩
+    · exact Or.inr ⟨hn, Or.inr (Or.inr h1)⟩
 
 theorem sender_of_info (sd : Bytes) : ((70 :: sd ++ [0]).drop 1).dropLast = sd := by
   simp [dropLast_append_singleton]
@@ -320,8 +376,14 @@ theorem C03_bounce_to_sender (cfg : Cfg) (s s' : St) (hr : Reach cfg s) (m : Nat
     (∃ file, (s.msg m).bounce = some file ∧ isInfix file body = true) ∧
     (s.msg m).loc = none ∧ (s.msg m).rem = none := by
   have hm := (reach_inv cfg s hr).msgs m
-  change acceptCore cfg s.calm _ = _ at h
-  simp only [acceptCore, St.calm_msg] at h
+  refine (?_ : ∀ t : St, MInv cfg (t.msg m) → (t.msg m).accepted = some (sender, rcpts) →
+      acceptCore cfg t (.bounceInject m true env body) = some s' →
+      sender ≠ [35, 64, 91, 93] ∧ env = bounceEnvelope cfg sender ∧
+      (∃ file, (t.msg m).bounce = some file ∧ isInfix file body = true) ∧ (t.msg m).loc = none ∧ (t.msg m).rem = none)
+    s.calm hm ha h
+  clear h hm ha hr s
+  intro s hm ha h
+  simp only [acceptCore] at h
   split at h
   · cases h
   · split at h
@@ -349,8 +411,14 @@ theorem C03_bounce_removed (cfg : Cfg) (s s' : St) (hr : Reach cfg s) (m : Nat) 
     (((s.msg m).lastInject = true ∧ sender ≠ [35, 64, 91, 93]) ∨ sender = [35, 64, 91, 93]) ∧
     (s.msg m).loc = none ∧ (s.msg m).rem = none := by
   have hm := (reach_inv cfg s hr).msgs m
-  change acceptCore cfg s.calm _ = _ at h
-  simp only [acceptCore, St.calm_msg] at h
+  refine (?_ : ∀ t : St, MInv cfg (t.msg m) → (t.msg m).accepted = some (sender, rcpts) →
+      acceptCore cfg t (.unlinkBounce m) = some s' →
+      (((t.msg m).lastInject = true ∧ sender ≠ [35, 64, 91, 93]) ∨ sender = [35, 64, 91, 93]) ∧
+      (t.msg m).loc = none ∧ (t.msg m).rem = none)
+    s.calm hm ha h
+  clear h hm ha hr s
+  intro s hm ha h
+  simp only [acceptCore] at h
   split at h
   · cases h
   · split at h
@@ -407,6 +475,41 @@ example :
     -- interrupted `addbounce` (daemon died between the `D` report and the end of the append): the file may exist, nobody is exempt
     ((acceptAll cfg0 {} (pre ++ [.cmd .loc 0 7 0 [97], .rbytes .loc [0, 68, 120, 10, 0], .restart, .crashBounce 7 [60, 97]])).map
         fun s => ((s.msg 7).lostRecs, (s.msg 7).bounce)) = some ([], some [60, 97]) := by
+  decide
+
+/-- the second-pass audit's probes (crash-damage events with no crash), now REFUSED.
+(A) no crash anywhere: both recipients reported `D`, paragraphs appended, marks written, channel file unlinked — accepted so
+far —, then `crashBounce 7 []` in the middle of normal operation: refused (it used to be accepted and made both recipients
+`lostRecs`); with a crash right before it the same event is accepted and both records are exempt.
+(C) stale `cut`: a crash with a pending `D` report for message 7, then normal operation, then `crashBounce 7 …` inventing a bounce
+file: refused (`cut` is cleared with the mode flag); right after the crash it is accepted; an arrival does not close the window.
+`crashMarks` / `crashTodoFiles` with no crash: refused. -/
+example :
+    let pre : List Ev :=
+      [.newmsg 7 [115] [[97], [98]], .creatInfo 7, .writeInfo 7 [70, 115, 0], .creatChan 7 .loc, .writeChan 7 .loc [84, 97, 0, 84, 98, 0],
+       .fsyncInfo 7, .fsyncChan 7 .loc, .cleanReq [116, 111, 100, 111, 47, 55, 0], .cUnlinkIntd 7, .cUnlinkTodo 7, .cleanResp 43]
+    let bothBounced : List Ev := pre ++
+      [.cmd .loc 0 7 0 [97], .rbytes .loc [0, 68, 120, 10, 0], .appendBounce 7 [60, 97, 62, 58, 10, 120, 10, 10], .markD 7 .loc 0,
+       .cmd .loc 0 7 3 [98], .rbytes .loc [0, 68, 120, 10, 0], .appendBounce 7 [60, 98, 62, 58, 10, 120, 10, 10], .markD 7 .loc 3,
+       .unlinkChan 7 .loc]
+    -- (A)
+    (acceptAll cfg0 {} bothBounced).isSome = true ∧
+    acceptAll cfg0 {} (bothBounced ++ [.crashBounce 7 []]) = none ∧
+    ((acceptAll cfg0 {} (bothBounced ++ [.restart, .crashBounce 7 []])).map fun s => (s.msg 7).lostRecs) = some [(.loc, 1), (.loc, 0)] ∧
+    -- one event of the restarted daemon closes the window
+    acceptAll cfg0 {} (bothBounced ++ [.restart, .tick 0, .crashBounce 7 []]) = none ∧
+    -- (C)
+    acceptAll cfg0 {} (pre ++ [.cmd .loc 0 7 0 [97], .rbytes .loc [0, 68, 120, 10, 0], .restart,
+      .cmd .loc 0 7 0 [97], .rbytes .loc [0, 90, 0], .cmd .loc 0 7 3 [98], .rbytes .loc [0, 90, 0], .tick 5, .crashBounce 7 [1, 2, 3]]) = none ∧
+    ((acceptAll cfg0 {} (pre ++ [.cmd .loc 0 7 0 [97], .rbytes .loc [0, 68, 120, 10, 0], .restart, .newmsg 8 [] [[99]],
+      .crashBounce 7 [1, 2, 3]])).map fun s => ((s.msg 7).bounce, s.cut, s.crashed)) = some (some [1, 2, 3], [7], true) ∧
+    ((acceptAll cfg0 {} (pre ++ [.cmd .loc 0 7 0 [97], .rbytes .loc [0, 68, 120, 10, 0], .restart, .crashBounce 7 [1, 2, 3],
+      .cmd .loc 0 7 0 [97]])).map fun s => (s.cut, s.crashed)) = some ([], false) ∧
+    -- the other two damage events
+    acceptAll cfg0 {} (pre ++ [.cmd .loc 0 7 0 [97], .rbytes .loc [0, 75, 0], .markD 7 .loc 0, .crashMarks 7 .loc [false, false]]) = none ∧
+    (acceptAll cfg0 {} (pre ++ [.cmd .loc 0 7 0 [97], .rbytes .loc [0, 75, 0], .markD 7 .loc 0, .restart, .crashMarks 7 .loc [false, false]])).isSome = true ∧
+    acceptAll cfg0 {} [.newmsg 7 [115] [[97]], .creatInfo 7, .crashTodoFiles 7] = none ∧
+    (acceptAll cfg0 {} [.newmsg 7 [115] [[97]], .creatInfo 7, .restart, .crashTodoFiles 7]).isSome = true := by
   decide
 
 end Nq.Props.C03
